@@ -97,7 +97,7 @@ _V = _os.path.dirname(_os.path.dirname(_os.path.abspath(__file__)))
 _PTS = _os.path.join(_V, '.build', 'overlay', 'yield', 'points.json')
 PROPS['C08'] = dict(
     level='exploration', builds={'pbsched': dict(pkg='./cmd/pbsched', overlay='yield')},
-    stages=[dict(name='sched', bin='pbsched', args=['-points', _PTS], shards=shards(13, 26), par=13, timeout=2400, env={'GOMAXPROCS': '2'}, crash_is_violation=True, crash_key='buffer:crash')],
+    stages=[dict(name='sched', bin='pbsched', args=['-points', _PTS], shards=shards(14, 28), par=14, timeout=2400, env={'GOMAXPROCS': '2'}, crash_is_violation=True, crash_key='buffer:crash')],
     need_counters=['quiescent_points_inspected', 'quiescent_points_with_parked_readers', 'dfs_schedules', 'schedule_steps'],
 )
 
